@@ -313,7 +313,19 @@ func classifyCompile(msg string, s *Struct) string {
 			}
 		}
 	}
+	lowerEmb := false
+	if s != nil {
+		for _, f := range s.Fields {
+			if f.Embedded && !f.Public() {
+				lowerEmb = true
+			}
+		}
+	}
 	switch {
+	case lowerEmb && (strings.Contains(msg, "unknown field") || strings.Contains(msg, "has no field or method")):
+		// the Mutable twin embeds the unexported type under its own name, AsMutable / AsImmutable
+		// spell it with an upper-case initial
+		return "embedded-unexported-type"
 	case strings.Contains(msg, "does not satisfy") && typeset:
 		return "type-set-constraint"
 	case strings.Contains(msg, "does not satisfy"):
@@ -476,6 +488,38 @@ func RunPackage(t *Tool, p *Pkg, opt Options) *Outcome {
 			cur = cur.Without(nameSetExcept(cur.Structs, accepted))
 			continue
 		}
+		if opt.ValueLaws {
+			// field-set census: shape of every generated view against the spec (census.go)
+			ix := indexGenerated(g.Generated)
+			censusBad := map[string]bool{}
+			for _, s := range cur.Structs {
+				n, bad := ix.census(s)
+				if len(bad) > 0 {
+					censusBad[s.Name] = true
+				}
+				if n > 0 {
+					o.add("census.structs", 1)
+					o.add("census.views", int64(n))
+				}
+				for _, v := range bad {
+					key := opt.Prefix + "/field-set/" + v.view
+					if reported[key+"\x00"+s.Name] {
+						continue
+					}
+					reported[key+"\x00"+s.Name] = true
+					detail, kind := v.detail(s)
+					o.Findings = append(o.Findings, Finding{Key: key, Detail: detail + "\nstruct: " + s.Summary() + "\n" + s.Source(cur),
+						Witness: map[string]any{"input": src, "struct": s.Summary(), "struct_source": s.Source(cur), "view": v.view, "fields_in_view": v.got, "names_in_view": v.gotNames,
+							"fields_kept_by_spec": v.wantNames, "first_missing_field_kind": kind}})
+				}
+			}
+			if len(censusBad) > 0 {
+				// the law test of such a struct cannot compile (typed tuple / Unapply / Apply uses): drop
+				// them all at once so that the other structs of the package are still tested
+				cur = cur.Without(censusBad)
+				continue
+			}
+		}
 		test := LawTestSource(cur, cur.Structs, opt.Seed, opt.Values, opt.Hostile, opt.ValueLaws)
 		if err := os.WriteFile(filepath.Join(dir, "lw_law_test.go"), []byte(test), 0o644); err != nil {
 			o.Notes = append(o.Notes, err.Error())
@@ -520,27 +564,32 @@ func RunPackage(t *Tool, p *Pkg, opt Options) *Outcome {
 				}
 			}
 			if len(bad) == 0 && len(lawErrs) > 0 {
-				// the generated file compiles but a member the spec expects is missing / has another type
-				e := lawErrs[0]
-				line := lineOf(test, e.Line)
-				var s *Struct
-				for _, c := range cur.Structs {
-					if refersTo(line, "lwT_"+c.Name) || refersTo(line, "lwLaws_"+c.Name) || refersTo(line, "lwFields_"+c.Name) || refersTo(line, "lwGen_"+c.Name) {
-						s = c
+				// the generated file compiles but a member the spec expects is missing / has another type.
+				// Every struct named by an error is reported (once) and dropped, so that one round is enough
+				for k, e := range lawErrs {
+					line := lineOf(test, e.Line)
+					var s *Struct
+					for _, c := range cur.Structs {
+						if refersTo(line, "lwT_"+c.Name) || refersTo(line, "lwLaws_"+c.Name) || refersTo(line, "lwFields_"+c.Name) || refersTo(line, "lwGen_"+c.Name) {
+							s = c
+						}
 					}
+					if s == nil {
+						s = structOfLawLine(cur, test, e.Line)
+					}
+					if k > 0 && (s == nil || bad[s.Name] != nil) {
+						continue // follow-up error of a struct already reported
+					}
+					key := opt.Prefix + "/lawtest-compile/" + classifyCompile(e.Msg, s)
+					w := map[string]any{"input": src, "compiler_output": clip(tr.Output, 4000), "law_test_line": line}
+					detail := fmt.Sprintf("the law test written from the spec does not compile against gombok's output: %s:%d: %s\n%s", e.File, e.Line, e.Msg, strings.TrimSpace(line))
+					if s != nil {
+						w["struct"] = s.Summary()
+						detail += "\nstruct: " + s.Summary() + "\n" + s.Source(cur)
+						bad[s.Name] = s
+					}
+					o.Findings = append(o.Findings, Finding{Key: key, Detail: detail, Witness: w})
 				}
-				if s == nil {
-					s = structOfLawLine(cur, test, e.Line)
-				}
-				key := opt.Prefix + "/lawtest-compile/" + classifyCompile(e.Msg, s)
-				w := map[string]any{"input": src, "compiler_output": clip(tr.Output, 4000), "law_test_line": line}
-				detail := fmt.Sprintf("the law test written from the spec does not compile against gombok's output: %s:%d: %s\n%s", e.File, e.Line, e.Msg, strings.TrimSpace(line))
-				if s != nil {
-					w["struct"] = s.Summary()
-					detail += "\nstruct: " + s.Summary() + "\n" + s.Source(cur)
-					bad[s.Name] = s
-				}
-				o.Findings = append(o.Findings, Finding{Key: key, Detail: detail, Witness: w})
 			}
 			if len(bad) > 0 {
 				progress = true
